@@ -47,6 +47,7 @@ type inlineHelper struct {
 	file  *ast.File
 	waits bool // its body still calls another helper: expanded in a later round
 	keep  bool // a combinator (possibly pinned, possibly of another package): its declaration always stays
+	foreign bool // may also be expanded at call sites in other packages (see exportedOnly)
 	uses  int // references seen in the package
 	done  int // references expanded
 }
@@ -65,18 +66,23 @@ func IsPinnedFunc(key string) bool {
 func funcKey(o *types.Func) string { return strings.ReplaceAll(o.FullName(), Mod+"/", "") }
 
 // inlineRound computes one round of expansions. It returns the rewritten files (absolute path -> content) and a log.
+//
+// Helpers are collected for the whole module first (uses are counted over all packages): a new function whose body
+// mentions only names that mean the same outside its package (exported package-level objects, exported fields and
+// methods, imports, its own locals) is also expanded at its call sites in other packages ("foreign" expansion), unless
+// that would need an import that closes a cycle.
 func inlineRound(pkgs []*packages.Package, readFile func(abs string) ([]byte, error), counter *int) (map[string][]byte, []string) {
 	out := map[string][]byte{}
 	var log []string
+	inModule := func(p *packages.Package) bool {
+		return p.Types != nil && p.TypesInfo != nil && !IsMockPkg(p.PkgPath) && strings.HasPrefix(p.PkgPath, Mod)
+	}
 	combinators := collectCombinators(pkgs)
+	// new functions and methods of the module
+	home := map[types.Object]*inlineHelper{}
 	for _, p := range pkgs {
-		if p.Types == nil || p.TypesInfo == nil || IsMockPkg(p.PkgPath) || !strings.HasPrefix(p.PkgPath, Mod) {
+		if !inModule(p) {
 			continue
-		}
-		helpers := map[types.Object]*inlineHelper{}
-		for o, c := range combinators {
-			cc := *c
-			helpers[o] = &cc
 		}
 		for _, f := range p.Syntax {
 			for _, d := range f.Decls {
@@ -98,8 +104,57 @@ func inlineRound(pkgs []*packages.Package, readFile func(abs string) ([]byte, er
 				if fd.Doc != nil {
 					from = fd.Doc.Pos()
 				}
-				helpers[obj] = &inlineHelper{obj: obj, name: funcKey(obj), sig: obj.Type().(*types.Signature), recv: fd.Recv, ftype: fd.Type, body: fd.Body,
+				h := &inlineHelper{obj: obj, name: funcKey(obj), sig: obj.Type().(*types.Signature), recv: fd.Recv, ftype: fd.Type, body: fd.Body,
 					from: from, to: fd.End(), pkg: p, file: f}
+				h.foreign = fd.Name.IsExported() && exportedOnly(p, fd) && !strings.HasSuffix(p.Fset.Position(f.Pos()).Filename, "_test.go")
+				home[obj] = h
+			}
+		}
+	}
+	// uses over the whole module (a declaration is dropped only when every use anywhere was expanded)
+	for _, p := range pkgs {
+		if p.TypesInfo == nil {
+			continue
+		}
+		for _, o := range p.TypesInfo.Uses {
+			if h := home[o]; h != nil {
+				h.uses++
+			}
+		}
+	}
+	// a helper whose own body still calls another helper waits for a later round: its text must first receive
+	// that expansion, otherwise the copy placed in the caller would keep a call to a declaration that is dropped
+	markWaits := func(h *inlineHelper, isHelper func(types.Object) bool) {
+		ast.Inspect(h.body, func(n ast.Node) bool {
+			call, ok := n.(*ast.CallExpr)
+			if !ok {
+				return true
+			}
+			if id := calleeIdent(call); id != nil {
+				if o := h.pkg.TypesInfo.Uses[id]; o != nil && o != h.obj && isHelper(o) {
+					h.waits = true
+				}
+			}
+			return true
+		})
+	}
+	splices := map[string][]splice{} // by file name
+	addImports := map[string][]string{}
+	fileOf := map[string]*ast.File{}
+	pkgOfFile := map[string]*packages.Package{}
+	importable := importCheck(pkgs)
+	for _, p := range pkgs {
+		if !inModule(p) {
+			continue
+		}
+		helpers := map[types.Object]*inlineHelper{}
+		for o, c := range combinators {
+			cc := *c
+			helpers[o] = &cc
+		}
+		for o, h := range home {
+			if h.pkg == p || h.foreign {
+				helpers[o] = h
 			}
 		}
 		// local closures bound once to a name and only ever called through it: `get := func(n uint64) (*T, error) {…}`
@@ -136,6 +191,7 @@ func inlineRound(pkgs []*packages.Package, readFile func(abs string) ([]byte, er
 		}
 		// a closure variable that is assigned again, passed around or otherwise used as a value is not expanded
 		callees := map[*ast.Ident]bool{}
+		blankUse := map[*ast.Ident]bool{} // the `_ = name` that accompanies a generated binding: dropped with it
 		for _, f := range p.Syntax {
 			ast.Inspect(f, func(n ast.Node) bool {
 				if call, ok := n.(*ast.CallExpr); ok {
@@ -148,6 +204,7 @@ func inlineRound(pkgs []*packages.Package, readFile func(abs string) ([]byte, er
 					if l, isL := as.Lhs[0].(*ast.Ident); isL && l.Name == "_" {
 						if r, isR := as.Rhs[0].(*ast.Ident); isR {
 							callees[r] = true
+							blankUse[r] = true
 						}
 					}
 				}
@@ -155,9 +212,12 @@ func inlineRound(pkgs []*packages.Package, readFile func(abs string) ([]byte, er
 			})
 		}
 		for id, o := range p.TypesInfo.Uses {
-			if h := helpers[o]; h != nil {
+			if h := helpers[o]; h != nil && h.lit != nil {
+				if blankUse[id] {
+					continue
+				}
 				h.uses++
-				if h.lit != nil && !callees[id] {
+				if !callees[id] {
 					h.uses += 1 << 20 // used as a value: never "fully expanded", and refuse below
 				}
 			}
@@ -167,38 +227,19 @@ func inlineRound(pkgs []*packages.Package, readFile func(abs string) ([]byte, er
 				delete(helpers, o)
 			}
 		}
-		// a helper whose own body still calls another helper waits for a later round: its text must first receive
-		// that expansion, otherwise the copy placed in the caller would keep a call to a declaration that is dropped
 		for _, h := range helpers {
-			ast.Inspect(h.body, func(n ast.Node) bool {
-				call, ok := n.(*ast.CallExpr)
-				if !ok {
-					return true
-				}
-				var id *ast.Ident
-				switch f := call.Fun.(type) {
-				case *ast.Ident:
-					id = f
-				case *ast.SelectorExpr:
-					id = f.Sel
-				}
-				if id != nil {
-					if o := p.TypesInfo.Uses[id]; o != nil && o != h.obj && helpers[o] != nil {
-						h.waits = true
-					}
-				}
-				return true
-			})
+			if h.pkg == p || h.lit != nil {
+				markWaits(h, func(o types.Object) bool { return helpers[o] != nil || home[o] != nil })
+			}
 		}
-		splices := map[*ast.File][]splice{}
-		addImports := map[*ast.File][]string{}
 		for _, f := range p.Syntax {
 			fname := p.Fset.Position(f.Pos()).Filename
 			src, err := readFile(fname)
 			if err != nil {
 				continue
 			}
-			ix := &inliner{p: p, f: f, src: src, helpers: helpers, counter: counter, tf: p.Fset.File(f.Pos()), readFile: readFile}
+			fileOf[fname], pkgOfFile[fname] = f, p
+			ix := &inliner{p: p, f: f, src: src, helpers: helpers, counter: counter, tf: p.Fset.File(f.Pos()), readFile: readFile, importable: importable}
 			for _, d := range f.Decls {
 				fd, ok := d.(*ast.FuncDecl)
 				if !ok || fd.Body == nil {
@@ -209,73 +250,249 @@ func inlineRound(pkgs []*packages.Package, readFile func(abs string) ([]byte, er
 				ix.block(fd.Body.List)
 			}
 			if len(ix.out) > 0 {
-				splices[f] = append(splices[f], ix.out...)
-				addImports[f] = ix.imports
+				splices[fname] = append(splices[fname], ix.out...)
+				addImports[fname] = append(addImports[fname], ix.imports...)
 				log = append(log, ix.log...)
 			}
 		}
-		// blank the declarations of helpers whose every use was expanded
+		// local closures: blank the bindings whose every use was expanded
 		for _, h := range helpers {
-			if h.keep {
-				continue
+			if h.lit != nil {
+				blankDecl(h, readFile, splices, &log)
 			}
-			if h.done > 0 && h.done == h.uses {
-				tf := p.Fset.File(h.file.Pos())
-				from := tf.Offset(h.from)
-				to := tf.Offset(h.to)
-				fname := p.Fset.Position(h.file.Pos()).Filename
-				src, err := readFile(fname)
-				if err != nil {
-					continue
-				}
-				blank := strings.Repeat("\n", strings.Count(string(src[from:to]), "\n"))
-				splices[h.file] = append(splices[h.file], splice{from, to, blank})
-				log = append(log, fmt.Sprintf("inline: %s expanded at its %d call site(s); declaration dropped from the analysed program", h.name, h.done))
-			} else if h.done > 0 {
-				log = append(log, fmt.Sprintf("inline: %s expanded at %d of %d uses; declaration kept", h.name, h.done, h.uses))
-			}
-		}
-		for f, sp := range splices {
-			fname := p.Fset.Position(f.Pos()).Filename
-			src, err := readFile(fname)
-			if err != nil {
-				continue
-			}
-			// drop splices contained in a blanked declaration or overlapping an earlier one
-			sort.Slice(sp, func(i, j int) bool {
-				if sp[i].from != sp[j].from {
-					return sp[i].from < sp[j].from
-				}
-				return sp[i].to > sp[j].to
-			})
-			var keep []splice
-			end := -1
-			for _, s := range sp {
-				if s.from < end {
-					continue
-				}
-				keep = append(keep, s)
-				end = s.to
-			}
-			var sb strings.Builder
-			pos := 0
-			for _, s := range keep {
-				sb.Write(src[pos:s.from])
-				sb.WriteString(s.text)
-				pos = s.to
-			}
-			sb.Write(src[pos:])
-			text := sb.String()
-			if imps := addImports[f]; len(imps) > 0 {
-				tf := p.Fset.File(f.Pos())
-				at := tf.Offset(f.Name.End())
-				// offsets before the first splice are unchanged: the package clause precedes every declaration
-				text = text[:at] + "; " + strings.Join(imps, "; ") + text[at:]
-			}
-			out[fname] = []byte(blankUnusedImports(text, f, p))
 		}
 	}
+	// blank the declarations of helpers whose every use (in any package) was expanded
+	var hs []*inlineHelper
+	for _, h := range home {
+		hs = append(hs, h)
+	}
+	sort.Slice(hs, func(i, j int) bool { return hs[i].name < hs[j].name })
+	for _, h := range hs {
+		fname := h.pkg.Fset.Position(h.file.Pos()).Filename
+		fileOf[fname], pkgOfFile[fname] = h.file, h.pkg
+		blankDecl(h, readFile, splices, &log)
+	}
+	for fname, sp := range splices {
+		f, p := fileOf[fname], pkgOfFile[fname]
+		src, err := readFile(fname)
+		if err != nil || f == nil {
+			continue
+		}
+		// drop splices contained in a blanked declaration or overlapping an earlier one
+		sort.Slice(sp, func(i, j int) bool {
+			if sp[i].from != sp[j].from {
+				return sp[i].from < sp[j].from
+			}
+			return sp[i].to > sp[j].to
+		})
+		var keep []splice
+		end := -1
+		for _, s := range sp {
+			if s.from < end {
+				continue
+			}
+			keep = append(keep, s)
+			end = s.to
+		}
+		var sb strings.Builder
+		pos := 0
+		for _, s := range keep {
+			sb.Write(src[pos:s.from])
+			sb.WriteString(s.text)
+			pos = s.to
+		}
+		sb.Write(src[pos:])
+		text := sb.String()
+		if imps := addImports[fname]; len(imps) > 0 {
+			tf := p.Fset.File(f.Pos())
+			at := tf.Offset(f.Name.End())
+			// offsets before the first splice are unchanged: the package clause precedes every declaration
+			text = text[:at] + "; " + strings.Join(dedup(imps), "; ") + text[at:]
+		}
+		out[fname] = []byte(blankUnusedImports(text, f, p))
+	}
 	return out, log
+}
+
+func dedup(in []string) []string {
+	seen := map[string]bool{}
+	var out []string
+	for _, s := range in {
+		if !seen[s] {
+			seen[s] = true
+			out = append(out, s)
+		}
+	}
+	return out
+}
+
+// blankDecl drops the declaration of a helper whose every use was expanded.
+func blankDecl(h *inlineHelper, readFile func(string) ([]byte, error), splices map[string][]splice, log *[]string) {
+	if h.keep {
+		return
+	}
+	if h.done > 0 && h.done == h.uses {
+		tf := h.pkg.Fset.File(h.file.Pos())
+		from := tf.Offset(h.from)
+		to := tf.Offset(h.to)
+		fname := h.pkg.Fset.Position(h.file.Pos()).Filename
+		src, err := readFile(fname)
+		if err != nil {
+			return
+		}
+		if h.lit != nil {
+			// the `; _ = name` that follows a generated closure binding goes with it
+			if m := regexp.MustCompile(`^\s*;?\s*_ = ` + regexp.QuoteMeta(h.obj.Name()) + `\b\s*;?`).FindIndex(src[to:]); m != nil {
+				to += m[1]
+			}
+		}
+		blank := strings.Repeat("\n", strings.Count(string(src[from:to]), "\n"))
+		splices[fname] = append(splices[fname], splice{from, to, blank})
+		*log = append(*log, fmt.Sprintf("inline: %s expanded at its %d call site(s); declaration dropped from the analysed program", h.name, h.done))
+	} else if h.done > 0 {
+		*log = append(*log, fmt.Sprintf("inline: %s expanded at %d of %d uses; declaration kept", h.name, h.done, h.uses))
+	}
+}
+
+// exportedOnly: every name the body of fd mentions means the same in another package: its own parameters and locals,
+// builtins, imported packages, exported package-level objects of its package, exported fields and methods.
+func exportedOnly(p *packages.Package, fd *ast.FuncDecl) bool {
+	ok := true
+	ast.Inspect(fd.Body, func(n ast.Node) bool {
+		if _, isLit := n.(*ast.FuncLit); isLit {
+			ok = false // closures capture by reference; keep the foreign case simple
+			return false
+		}
+		id, isID := n.(*ast.Ident)
+		if !isID {
+			return true
+		}
+		o := p.TypesInfo.Uses[id]
+		if o == nil || o.Pkg() == nil {
+			return true
+		}
+		if _, isPkg := o.(*types.PkgName); isPkg {
+			return true
+		}
+		if o.Pos() >= fd.Pos() && o.Pos() < fd.End() {
+			return true
+		}
+		if o.Pkg() != p.Types {
+			return true // reached through an import: exported by construction
+		}
+		if !o.Exported() {
+			ok = false
+		}
+		return true
+	})
+	// the receiver and parameter types must be nameable outside as well
+	sig := p.TypesInfo.Defs[fd.Name].Type().(*types.Signature)
+	nameable := func(t types.Type) {
+		walkNamed(t, func(n *types.Named) {
+			if n.Obj().Pkg() != nil && !n.Obj().Exported() {
+				ok = false
+			}
+		})
+	}
+	if sig.Recv() != nil {
+		nameable(sig.Recv().Type())
+	}
+	for i := 0; i < sig.Params().Len(); i++ {
+		nameable(sig.Params().At(i).Type())
+	}
+	for i := 0; i < sig.Results().Len(); i++ {
+		nameable(sig.Results().At(i).Type())
+	}
+	return ok
+}
+
+func walkNamed(t types.Type, f func(*types.Named)) {
+	seen := map[types.Type]bool{}
+	var rec func(t types.Type)
+	rec = func(t types.Type) {
+		if t == nil || seen[t] {
+			return
+		}
+		seen[t] = true
+		switch x := t.(type) {
+		case *types.Named:
+			f(x)
+			for i := 0; i < x.TypeArgs().Len(); i++ {
+				rec(x.TypeArgs().At(i))
+			}
+		case *types.Pointer:
+			rec(x.Elem())
+		case *types.Slice:
+			rec(x.Elem())
+		case *types.Array:
+			rec(x.Elem())
+		case *types.Map:
+			rec(x.Key())
+			rec(x.Elem())
+		case *types.Chan:
+			rec(x.Elem())
+		case *types.Signature:
+			for i := 0; i < x.Params().Len(); i++ {
+				rec(x.Params().At(i).Type())
+			}
+			for i := 0; i < x.Results().Len(); i++ {
+				rec(x.Results().At(i).Type())
+			}
+		}
+	}
+	rec(t)
+}
+
+// importCheck returns importable(from, to): adding `import to` to package from does not close an import cycle.
+func importCheck(pkgs []*packages.Package) func(from *types.Package, to *types.Package) bool {
+	byPath := map[string]*packages.Package{}
+	var visit func(p *packages.Package)
+	visit = func(p *packages.Package) {
+		if byPath[p.PkgPath] != nil {
+			return
+		}
+		byPath[p.PkgPath] = p
+		for _, ip := range p.Imports {
+			visit(ip)
+		}
+	}
+	for _, p := range pkgs {
+		visit(p)
+	}
+	memo := map[[2]string]bool{}
+	var reaches func(a, b string, seen map[string]bool) bool
+	reaches = func(a, b string, seen map[string]bool) bool {
+		if a == b {
+			return true
+		}
+		if seen[a] {
+			return false
+		}
+		seen[a] = true
+		pa := byPath[a]
+		if pa == nil {
+			return false
+		}
+		for _, ip := range pa.Imports {
+			if reaches(ip.PkgPath, b, seen) {
+				return true
+			}
+		}
+		return false
+	}
+	return func(from, to *types.Package) bool {
+		if from == nil || to == nil {
+			return false
+		}
+		k := [2]string{from.Path(), to.Path()}
+		if v, ok := memo[k]; ok {
+			return v
+		}
+		v := !reaches(to.Path(), from.Path(), map[string]bool{})
+		memo[k] = v
+		return v
+	}
 }
 
 func notInlinable(body *ast.BlockStmt, sig *types.Signature) string {
@@ -322,6 +539,32 @@ func simpleDefer(body *ast.BlockStmt, d *ast.DeferStmt) bool {
 	if !top || d.Call.Ellipsis.IsValid() {
 		return false
 	}
+	// `defer func() { … }()`: a parameterless closure without return / recover / defer of its own; its body is run in place
+	// at every exit (the expansion checks that the names it captures are not shadowed there and are no named results)
+	if lit, isLit := d.Call.Fun.(*ast.FuncLit); isLit {
+		if len(d.Call.Args) != 0 || lit.Type.Params.NumFields() != 0 || lit.Type.Results.NumFields() != 0 {
+			return false
+		}
+		plain := true
+		ast.Inspect(lit.Body, func(n ast.Node) bool {
+			switch x := n.(type) {
+			case *ast.FuncLit:
+				return false
+			case *ast.ReturnStmt, *ast.DeferStmt, *ast.GoStmt, *ast.LabeledStmt:
+				plain = false
+			case *ast.BranchStmt:
+				if x.Label != nil || x.Tok == token.GOTO {
+					plain = false
+				}
+			case *ast.CallExpr:
+				if id, ok := x.Fun.(*ast.Ident); ok && id.Name == "recover" {
+					plain = false
+				}
+			}
+			return true
+		})
+		return plain
+	}
 	var chain func(e ast.Expr) bool
 	chain = func(e ast.Expr) bool {
 		switch x := e.(type) {
@@ -351,6 +594,8 @@ type inliner struct {
 	exprDone map[*ast.CallExpr]bool
 	qual     types.Qualifier
 	readFile func(string) ([]byte, error)
+	importable func(from, to *types.Package) bool
+	badImport  bool
 	out     []splice
 	imports []string
 	log     []string
@@ -539,14 +784,17 @@ func (ix *inliner) hoist(s ast.Stmt, e ast.Expr) bool {
 			walk(x.X, cond)
 			walk(x.Y, cond || x.Op == token.LAND || x.Op == token.LOR)
 		case *ast.CallExpr:
-			// arguments first (evaluation order), then the call itself
+			// arguments first (evaluation order), then the call itself. Calls inside the helper call's own arguments
+			// move together with it (they are evaluated by the expansion's bindings, in order): only calls evaluated
+			// before the helper call and outside of it would be overtaken.
+			before := sawCall
 			for _, a := range x.Args {
 				walk(a, cond)
 			}
 			if sel, ok := x.Fun.(*ast.SelectorExpr); ok {
 				walk(sel.X, cond)
 			}
-			if found == nil && !cond && !sawCall {
+			if found == nil && !cond && !before {
 				if hh := ix.helperOf(x); hh != nil && hh.sig.Results().Len() == 1 {
 					found, h = x, hh
 				}
@@ -583,7 +831,7 @@ func (ix *inliner) hoist(s ast.Stmt, e ast.Expr) bool {
 		}
 	}
 	walk(e, false)
-	if found == nil {
+	if found == nil || ix.touched(s.Pos(), s.End()) {
 		return false
 	}
 	*ix.counter++
@@ -597,6 +845,19 @@ func (ix *inliner) hoist(s ast.Stmt, e ast.Expr) bool {
 	return true
 }
 
+// touched: an expression-level substitution of this round already rewrites part of [from,to). A statement-level expansion
+// copies the statement's original text, so it waits for the next round (otherwise the inner substitution would be lost
+// while being counted as done).
+func (ix *inliner) touched(from, to token.Pos) bool {
+	a, b := ix.tf.Offset(from), ix.tf.Offset(to)
+	for _, sp := range ix.out {
+		if sp.from < b && a < sp.to {
+			return true
+		}
+	}
+	return false
+}
+
 func (ix *inliner) emit(h *inlineHelper, text string, from, to token.Pos) {
 	end := ix.tf.Position(to)
 	text += fmt.Sprintf("/*line :%d:%d*/", end.Line, end.Column)
@@ -607,6 +868,9 @@ func (ix *inliner) emit(h *inlineHelper, text string, from, to token.Pos) {
 
 // rewrite replaces statement text [from,to) by prefix + expansion + "; " + assign + "r0, r1" + suffix.
 func (ix *inliner) rewrite(s ast.Stmt, from, to token.Pos, call *ast.CallExpr, h *inlineHelper, use *resultUse, prefix, assign, suffix string) bool {
+	if ix.touched(from, to) {
+		return false
+	}
 	n := 0
 	if use != nil {
 		n = h.sig.Results().Len()
@@ -641,6 +905,16 @@ func (ix *inliner) rewrite(s ast.Stmt, from, to token.Pos, call *ast.CallExpr, h
 
 // expansion builds `var temps…; L: switch { default: <bindings>; <body> }`.
 func (ix *inliner) expansion(call *ast.CallExpr, h *inlineHelper, nres int, temps []string) (string, bool) {
+	ix.badImport = false
+	text, ok := ix.expansion0(call, h, nres, temps)
+	if ix.badImport {
+		ix.log = append(ix.log, fmt.Sprintf("inline: %s left as written in %s: expanding it there needs an import that closes a cycle", h.name, funcKey(ix.caller)))
+		return "", false
+	}
+	return text, ok
+}
+
+func (ix *inliner) expansion0(call *ast.CallExpr, h *inlineHelper, nres int, temps []string) (string, bool) {
 	sig := h.sig
 	// a generic helper: use the signature of this instantiation and spell its type parameters out in the copied body
 	typeArgs := map[types.Object]string{}
@@ -718,8 +992,21 @@ func (ix *inliner) expansion(call *ast.CallExpr, h *inlineHelper, nres int, temp
 		if r := h.recv; r != nil && len(r.List) == 1 && len(r.List[0].Names) == 1 {
 			name = r.List[0].Names[0].Name
 		}
-		names, vals = append(names, name), append(vals, x)
-	} else if isQualifiedCallee(call) && !h.keep {
+		// `p := p` would only shadow the caller's variable (and separate it from closures that captured it): skipped when
+		// the receiver is never assigned in the helper
+		selfBound := false
+		if id, isID := sel.X.(*ast.Ident); isID && id.Name == name && x == id.Name && name != "_" {
+			if r := h.recv; r != nil && len(r.List) == 1 && len(r.List[0].Names) == 1 {
+				if ro := h.pkg.TypesInfo.Defs[r.List[0].Names[0]]; ro != nil && !assignedIn(h, ro) &&
+					types.Identical(ix.p.TypesInfo.TypeOf(sel.X), sig.Recv().Type()) {
+					selfBound = true
+				}
+			}
+		}
+		if !selfBound {
+			names, vals = append(names, name), append(vals, x)
+		}
+	} else if isQualifiedCallee(call) && !h.keep && !(h.foreign && h.pkg != ix.p) {
 		dbgRefuse(678)
 		return "", false // pkg.F from another package
 	}
@@ -760,6 +1047,15 @@ func (ix *inliner) expansion(call *ast.CallExpr, h *inlineHelper, nres int, temp
 					litBindings = append(litBindings, nm.Name+" := "+ix.text(call.Args[k].Pos(), call.Args[k].End())+"; _ = "+nm.Name+"; ")
 					k++
 					continue
+				}
+			}
+			if k < len(call.Args) && !(variadic && k == sig.Params().Len()-1) {
+				if id, isID := call.Args[k].(*ast.Ident); isID && id.Name == nm.Name && nm.Name != "_" {
+					if po := h.pkg.TypesInfo.Defs[nm]; po != nil && !assignedIn(h, po) &&
+						types.Identical(ix.p.TypesInfo.TypeOf(call.Args[k]), sig.Params().At(k).Type()) {
+						k++
+						continue // `ctx := ctx`: see the receiver case
+					}
 				}
 			}
 			names, vals = append(names, nm.Name), append(vals, argText(k))
@@ -881,12 +1177,20 @@ func (ix *inliner) expansion(call *ast.CallExpr, h *inlineHelper, nres int, temp
 		text string
 	}
 	var deferred []deferredCall
+	var deferLits []*ast.FuncLit
 	deferCapture := map[*ast.DeferStmt]string{}
 	ast.Inspect(h.body, func(n ast.Node) bool {
 		switch x := n.(type) {
 		case *ast.FuncLit:
 			return false
 		case *ast.DeferStmt:
+			if lit, isLit := x.Call.Fun.(*ast.FuncLit); isLit {
+				// a deferred closure: its body runs in place at the exits
+				deferCapture[x] = ""
+				deferred = append([]deferredCall{{x.Pos(), "{ " + fixed(htf.Offset(lit.Body.Lbrace)+1, htf.Offset(lit.Body.Rbrace)) + " }"}}, deferred...)
+				deferLits = append(deferLits, lit)
+				return false
+			}
 			// the arguments are evaluated where the defer statement stands (into temporaries of this copy), the call
 			// itself runs at the exits
 			capture, args := "", []string{}
@@ -901,6 +1205,57 @@ func (ix *inliner) expansion(call *ast.CallExpr, h *inlineHelper, nres int, temp
 		}
 		return true
 	})
+	// a deferred closure run in place must mean the same at every exit: the helper's locals it captures are not shadowed
+	// there, and it does not look at named results (which only a real return statement sets)
+	for _, lit := range deferLits {
+		okLit := true
+		var exits []token.Pos
+		ast.Inspect(h.body, func(n ast.Node) bool {
+			switch x := n.(type) {
+			case *ast.FuncLit:
+				return false
+			case *ast.ReturnStmt:
+				if x.Pos() > lit.End() {
+					exits = append(exits, x.Pos())
+				}
+			}
+			return true
+		})
+		exits = append(exits, h.body.Rbrace)
+		ast.Inspect(lit.Body, func(n ast.Node) bool {
+			id, isID := n.(*ast.Ident)
+			if !isID {
+				return true
+			}
+			o := h.pkg.TypesInfo.Uses[id]
+			if o == nil || o.Pkg() == nil || o.Parent() == nil || o.Parent() == h.pkg.Types.Scope() {
+				return true
+			}
+			if o.Pos() >= lit.Pos() && o.Pos() < lit.End() {
+				return true // the closure's own local
+			}
+			for _, rn := range resNames {
+				if id.Name == rn {
+					okLit = false
+				}
+			}
+			for _, at := range exits {
+				sc := h.pkg.Types.Scope().Innermost(at)
+				if sc == nil {
+					okLit = false
+					continue
+				}
+				if _, cur := sc.LookupParent(id.Name, at); cur != o {
+					okLit = false
+				}
+			}
+			return true
+		})
+		if !okLit {
+			dbgRefuse(871)
+			return "", false
+		}
+	}
 	runDeferredAt := func(at token.Pos) string {
 		out := ""
 		for _, dcall := range deferred {
@@ -1013,6 +1368,10 @@ func (ix *inliner) newQualifier() types.Qualifier {
 			return n
 		}
 		alias := "__imp_" + strings.NewReplacer("/", "_", ".", "_", "-", "_").Replace(p.Path())
+		if ix.importable != nil && !ix.importable(ix.p.Types, p) {
+			ix.badImport = true // the import would close a cycle: the expansion that needs it is refused
+			return alias
+		}
 		byPath[p.Path()] = alias
 		ix.imports = append(ix.imports, fmt.Sprintf("import %s %q", alias, p.Path()))
 		return alias
@@ -1067,6 +1426,15 @@ func (ix *inliner) captureFixes(at token.Pos, h *inlineHelper, params, results [
 				fixes = append(fixes, identFix{id, want})
 			}
 		default:
+			if h.pkg != ix.p && h.lit == nil && obj.Parent() == h.pkg.Types.Scope() {
+				// a foreign helper mentions an (exported) package-level object of its own package: qualify it
+				if !obj.Exported() {
+					ok = false
+					return true
+				}
+				fixes = append(fixes, identFix{id, qual(h.pkg.Types) + "." + id.Name})
+				return true
+			}
 			outsideLit := h.lit != nil && (obj.Pos() < h.lit.Pos() || obj.Pos() >= h.lit.End()) && obj.Pkg() == h.pkg.Types
 			if _, isField := obj.(*types.Var); isField && obj.(*types.Var).IsField() {
 				return true
@@ -1184,6 +1552,15 @@ func simpleOperand(e ast.Expr) bool {
 }
 
 func (ix *inliner) exprExpansion(call *ast.CallExpr, h *inlineHelper) (string, bool) {
+	ix.badImport = false
+	text, ok := ix.exprExpansion0(call, h)
+	if ix.badImport {
+		return "", false
+	}
+	return text, ok
+}
+
+func (ix *inliner) exprExpansion0(call *ast.CallExpr, h *inlineHelper) (string, bool) {
 	if len(h.body.List) != 1 || h.sig.Results().Len() != 1 || call.Ellipsis.IsValid() || len(call.Args) != h.sig.Params().Len() {
 		dbgRefuse(1030)
 		return "", false
@@ -1213,6 +1590,7 @@ func (ix *inliner) exprExpansion(call *ast.CallExpr, h *inlineHelper) (string, b
 	qual := ix.qualifier()
 	// parameter objects -> replacement text
 	repl := map[types.Object]string{}
+	notAddr := map[types.Object]bool{} // parameters whose replacement is not addressable
 	esig := h.sig
 	if esig.TypeParams().Len() > 0 {
 		id := calleeIdent(call)
@@ -1230,7 +1608,11 @@ func (ix *inliner) exprExpansion(call *ast.CallExpr, h *inlineHelper) (string, b
 	for _, fl := range h.ftype.Params.List {
 		for _, nm := range fl.Names {
 			if o := h.pkg.TypesInfo.Defs[nm]; o != nil {
+				// a converted argument is not addressable; a helper that slices an array parameter or calls a pointer method
+				// on a value parameter is expanded as statements instead (the copy it works on keeps the caller's variable
+				// out of memory, so go/ssa still lifts it)
 				repl[o] = "(" + types.TypeString(esig.Params().At(k).Type(), qual) + ")(" + ix.text(call.Args[k].Pos(), call.Args[k].End()) + ")"
+				notAddr[o] = true
 			}
 			k++
 		}
@@ -1266,7 +1648,7 @@ func (ix *inliner) exprExpansion(call *ast.CallExpr, h *inlineHelper) (string, b
 				repl[o] = x
 			}
 		}
-	} else if _, isSel := call.Fun.(*ast.SelectorExpr); isSel {
+	} else if _, isSel := call.Fun.(*ast.SelectorExpr); isSel && !h.keep && !(h.foreign && h.pkg != ix.p) {
 		dbgRefuse(1093)
 		return "", false
 	}
@@ -1276,6 +1658,27 @@ func (ix *inliner) exprExpansion(call *ast.CallExpr, h *inlineHelper) (string, b
 		if u, isU := n.(*ast.UnaryExpr); isU && u.Op == token.AND {
 			if id, isID := u.X.(*ast.Ident); isID && repl[h.pkg.TypesInfo.Uses[id]] != "" {
 				okReads = false
+			}
+		}
+		// slicing an array parameter / calling a pointer method on a value parameter needs an addressable operand
+		if sl, isSl := n.(*ast.SliceExpr); isSl {
+			if id, isID := sl.X.(*ast.Ident); isID && notAddr[h.pkg.TypesInfo.Uses[id]] {
+				if _, isArr := h.pkg.TypesInfo.TypeOf(id).Underlying().(*types.Array); isArr {
+					okReads = false
+				}
+			}
+		}
+		if sel, isSel := n.(*ast.SelectorExpr); isSel {
+			if id, isID := sel.X.(*ast.Ident); isID && notAddr[h.pkg.TypesInfo.Uses[id]] {
+				if s := h.pkg.TypesInfo.Selections[sel]; s != nil && s.Kind() == types.MethodVal {
+					if msig, _ := s.Obj().Type().(*types.Signature); msig != nil && msig.Recv() != nil {
+						_, mPtr := msig.Recv().Type().(*types.Pointer)
+						_, xPtr := h.pkg.TypesInfo.TypeOf(id).Underlying().(*types.Pointer)
+						if mPtr && !xPtr {
+							okReads = false
+						}
+					}
+				}
 			}
 		}
 		return true
@@ -1522,4 +1925,35 @@ func (ix *inliner) aliasUses(h *inlineHelper, pobj types.Object, text string) []
 		return true
 	})
 	return out
+}
+
+// assignedIn: the helper's body assigns to (or takes the address of) the given parameter / receiver.
+func assignedIn(h *inlineHelper, o types.Object) bool {
+	hit := false
+	ast.Inspect(h.body, func(n ast.Node) bool {
+		switch x := n.(type) {
+		case *ast.AssignStmt:
+			for _, l := range x.Lhs {
+				if id, ok := l.(*ast.Ident); ok && h.pkg.TypesInfo.Uses[id] == o {
+					hit = true
+				}
+			}
+		case *ast.IncDecStmt:
+			if id, ok := x.X.(*ast.Ident); ok && h.pkg.TypesInfo.Uses[id] == o {
+				hit = true
+			}
+		case *ast.UnaryExpr:
+			if id, ok := x.X.(*ast.Ident); ok && x.Op == token.AND && h.pkg.TypesInfo.Uses[id] == o {
+				hit = true
+			}
+		case *ast.RangeStmt:
+			for _, e := range []ast.Expr{x.Key, x.Value} {
+				if id, ok := e.(*ast.Ident); ok && h.pkg.TypesInfo.Uses[id] == o {
+					hit = true
+				}
+			}
+		}
+		return true
+	})
+	return hit
 }
